@@ -187,19 +187,15 @@ func (s *ReverseSuffixSearcher) Find(haystack []byte) *Match {
 		return nil
 	}
 
-	// For matchStartZero (unanchored .* prefix), match starts at the beginning
-	// of the line containing the LAST suffix — .* (AnyCharNotNL) cannot cross \n.
+	// For matchStartZero (`.*literal`), the leftmost match is on the FIRST line that
+	// contains the suffix (.* cannot cross \n) and ends at the LAST suffix on that line.
+	// This is exactly what the FindAt logic computes from position 0.
 	if s.matchStartZero {
-		lastPos := bytes.LastIndex(haystack, s.suffixBytes)
-		if lastPos == -1 {
+		start, end, found := s.FindIndicesAt(haystack, 0)
+		if !found {
 			return nil
 		}
-		revEnd := lastPos + s.suffixLen
-		if revEnd > len(haystack) {
-			revEnd = len(haystack)
-		}
-		matchStart := lineStartBefore(haystack, 0, lastPos)
-		return NewMatch(matchStart, revEnd, haystack)
+		return NewMatch(start, end, haystack)
 	}
 
 	// For bounded wildcards (e.g., \d+\.\d+\.35), find the FIRST suffix
